@@ -2,7 +2,7 @@
 # Run every seeded change against the check of the property it breaks; write seeded/RESULTS.md.
 # (Applies each patch to /repo and reverts it straight afterwards.)
 cd /verif
-out=seeded/RESULTS.md
+out=${SWEEP_OUT:-seeded/RESULTS.md}   # VERIF_SEED=<n> SWEEP_OUT=.work/RESULTS-seed<n>.md for the seed-sensitivity sweeps
 echo "| seeded change | property | check result | failed clause |" > $out.tmp
 echo "|---|---|---|---|" >> $out.tmp
 for d in seeded/*/; do
